@@ -48,7 +48,7 @@ pub fn run_generated(pname: &str, seed: u64) -> RunOut {
         gen.p.integer_only = true;
     }
     let regime = gen.regime;
-    let mut sim = Sim::new(SimCfg { regime, monitors: true, guard_mag: false });
+    let mut sim = Sim::new(SimCfg { regime, monitors: true, guard_mag: false, silent: false });
     let mut trace = Vec::new();
     crate::train::drive(&mut sim, &mut gen, &mut trace);
     let actors = std::mem::take(&mut gen.actor_log);
@@ -57,7 +57,7 @@ pub fn run_generated(pname: &str, seed: u64) -> RunOut {
 }
 
 pub fn run_trace(events: &[Ev], regime: Regime, monitors: bool) -> Sim {
-    let mut sim = Sim::new(SimCfg { regime, monitors, guard_mag: false });
+    let mut sim = Sim::new(SimCfg { regime, monitors, guard_mag: false, silent: false });
     let mut src = crate::train::ListSource { evs: events, i: 0 };
     let mut rec = Vec::new();
     crate::train::drive(&mut sim, &mut src, &mut rec);
@@ -672,8 +672,17 @@ pub struct RelOut {
 pub fn relational(prop: &str, pname: &str, tier: &str, idx: u64, out: &RunOut, seed: u64) -> RelOut {
     let prop = if prop == "C19" { pname } else { prop };
     match prop {
+        "C01" => {
+            let (viols, forks) = if idx % 2 == 0 { crate::relational::unobserved(out) } else { (vec![], 0) };
+            RelOut { viols, forks, nontrivial: None, sample: serde_json::Value::Null }
+        }
         "C10" => {
             let (mut viols, mut forks, _) = crate::relational::c10_solo(out);
+            if viols.is_empty() {
+                let (v3, f3) = crate::relational::unobserved(out);
+                viols.extend(v3);
+                forks += f3;
+            }
             if viols.is_empty() && idx % 4 == 0 {
                 let (v2, f2) = crate::relational::c10_sweep(out, seed, tier == "thorough" && idx % 16 == 0);
                 viols.extend(v2);
@@ -690,7 +699,12 @@ pub fn relational(prop: &str, pname: &str, tier: &str, idx: u64, out: &RunOut, s
         }
         "C12" => {
             let exhaustive = tier == "thorough" && idx % 8 == 0;
-            let (mut viols, forks, nt, sample) = crate::relational::c12(out, seed, exhaustive);
+            let (mut viols, mut forks, nt, sample) = crate::relational::c12(out, seed, exhaustive);
+            if viols.is_empty() {
+                let (v3, f3) = crate::relational::unobserved(out);
+                viols.extend(v3);
+                forks += f3;
+            }
             for v in viols.iter_mut() {
                 // the perturbation set is part of the violating case
                 let ps = v.detail.clone();
@@ -780,6 +794,7 @@ fn corgi_rev() -> String {
 pub fn judge_for(monitor: &str, regime: Regime, extra: &serde_json::Value) -> (Box<dyn Fn(&[Ev]) -> Vec<Violation>>, bool) {
     match monitor {
         "solo_deposit" | "solo_pass_panicked" => (Box::new(move |evs: &[Ev]| crate::relational::c10_judge(evs, regime)), false),
+        "unobserved_history_differs" | "unobserved_history_panicked" => (Box::new(move |evs: &[Ev]| crate::relational::unobserved_judge(evs, regime)), false),
         "observation_differs" | "perturbed_run_panicked" => {
             let ps: Vec<crate::relational::Perturb> = serde_json::from_value(extra["perturb"].clone()).unwrap_or_default();
             (Box::new(move |evs: &[Ev]| crate::relational::c12_judge(evs, regime, &ps)), true)
